@@ -11,13 +11,13 @@ use std::hash::{Hash, Hasher};
 type Model = Vec<(String, RefValue)>;
 
 #[derive(Clone, Copy, Debug, PartialEq)]
-enum Op { Push(u8, u8), PushFront(u8, u8), Insert(u8, u8, u8), InsertFront(u8, u8, u8), Remove(u8, u8), RemoveUnique(u8), RemoveAt(u8), Sort, Clone, FromVec, Extend(u8, u8), SetAll(u8, u8), GetOrInsert(u8, u8), GetMutOrInsert(u8, u8), SetUnique(u8, u8) }
+enum Op { MutAll(u8), Push(u8, u8), PushFront(u8, u8), Insert(u8, u8, u8), InsertFront(u8, u8, u8), Remove(u8, u8), RemoveUnique(u8), RemoveAt(u8), Sort, Clone, FromVec, Extend(u8, u8), SetAll(u8, u8), GetOrInsert(u8, u8), GetMutOrInsert(u8, u8), SetUnique(u8, u8) }
 
 const KEYS: [&str; 2] = ["a", "b"];
 fn val(i: u8) -> RefValue { RefValue::Num(if i == 0 { "1".into() } else { "2".into() }) }
 
 fn all_ops() -> Vec<Op> {
-    let mut v = vec![Op::Sort, Op::Clone, Op::FromVec];
+    let mut v = vec![Op::Sort, Op::Clone, Op::FromVec, Op::MutAll(0), Op::MutAll(1)];
     for k in 0..2u8 { for x in 0..2u8 {
         v.push(Op::Push(k, x)); v.push(Op::PushFront(k, x)); v.push(Op::Extend(k, x)); v.push(Op::SetAll(k, x)); v.push(Op::GetOrInsert(k, x)); v.push(Op::GetMutOrInsert(k, x)); v.push(Op::SetUnique(k, x));
         for m in 0..3u8 { v.push(Op::Insert(k, x, m)); v.push(Op::InsertFront(k, x, m)); }
@@ -42,6 +42,12 @@ fn apply(op: Op, obj: &mut Object, m: &mut Model) -> Option<String> {
         Op::Push(k, x) => { let fresh = !m.iter().any(|(k2, _)| k2 == KEYS[k as usize]); let got = obj.push(KEYS[k as usize].into(), to_real(&val(x))); m.push((KEYS[k as usize].into(), val(x))); if got != fresh { return Some(format!("push returned {} expected {}", got, fresh)); } }
         Op::PushFront(k, x) => { let fresh = !m.iter().any(|(k2, _)| k2 == KEYS[k as usize]); let got = obj.push_front(KEYS[k as usize].into(), to_real(&val(x))); m.insert(0, (KEYS[k as usize].into(), val(x))); if got != fresh { return Some(format!("push_front returned {} expected {}", got, fresh)); } }
         Op::Extend(k, x) => { obj.extend(vec![(json_syntax::object::Key::from(KEYS[k as usize]), to_real(&val(x))), (json_syntax::object::Key::from(KEYS[(1 - k) as usize]), to_real(&val(x)))]); m.push((KEYS[k as usize].into(), val(x))); m.push((KEYS[(1 - k) as usize].into(), val(x))); }
+        Op::MutAll(x) => {
+            // `iter_mut()`: every member in order, key shared, value mutable
+            let mut i = 0usize;
+            for (k, v) in obj.iter_mut() { if i >= m.len() || k.as_str() != m[i].0 { return Some(format!("iter_mut yields key {:?} at position {}", k.as_str(), i)); } if i % 2 == 0 { *v = to_real(&val(x)); m[i].1 = val(x); } i += 1; }
+            if i != m.len() { return Some(format!("iter_mut yields {} members, the object has {}", i, m.len())); }
+        }
         Op::SetAll(k, x) => { for v in obj.get_mut(KEYS[k as usize]) { *v = to_real(&val(x)); } for e in m.iter_mut() { if e.0 == KEYS[k as usize] { e.1 = val(x); } } }
         Op::GetOrInsert(k, x) => {
             // first value of the key, or one entry pushed at the end with the value the closure returns
